@@ -8,6 +8,7 @@
 # (and the decoded message) symbolic.  Descriptions are enumerated (B); per description all values are covered (P).
 from contracts import build as B
 from odxtools.dataobjectproperty import DataObjectProperty
+from odxtools.encoding import Encoding
 from odxtools.exceptions import DecodeError, EncodeError, OdxError
 from odxtools.minmaxlengthtype import MinMaxLengthType
 from odxtools.odxtypes import DataType
@@ -154,6 +155,14 @@ def d_leading_length_text():
         [("text", ("str", ["", "a", "ab", "\u00e9", "\u20ac"]))], None
 
 
+def d_leading_length_text_latin1():
+    # an explicit BASE-TYPE-ENCODING that differs from the default of the base data type
+    d = B.dop("lt1", dct=B.leading_length_type(DataType.A_UTF8STRING, 8, enc=Encoding.ISO_8859_1),
+              dt=DataType.A_UTF8STRING)
+    return B.request([B.coded_const("sid", 0x22, 0), B.value_param("text", d), B.coded_const("end", 0x55)]), \
+        [("text", ("str", ["", "a", "\u00e9", "a\u00e9b"]))], None
+
+
 def d_dynamic_length_field():
     item = B.structure("item", [B.value_param("k", B.dop("u8", 8))])
     f = B.dynamic_length_field("items", item, B.dop("count", 8), offset=1)
@@ -205,7 +214,7 @@ def d_table_key_struct():
 
 def d_table_fixed_row():
     t = _the_table()
-    k = B.table_key("tk", t, fixed_row=t.table_rows.row_b)
+    k = B.table_key("tk", t, fixed_row=[r for r in t.table_rows_raw if r.short_name == "row_b"][0])
     return B.request([B.coded_const("sid", 0x22, 0), k, B.table_struct("ts", k)]), \
         [("ts", ("oneof", [("tuple", "row_b", ("uint", 16))]))], None
 
@@ -304,6 +313,30 @@ def d_env_data_then_struct():
         [("rec", _ENV_RECORD), ("s", ("dict+unknown", [("a", ("uint", 8))]))], None
 
 
+def d_length_key_bit_position():
+    # a length key that does not start at bit 0 and therefore spills into a second byte
+    k = B.length_key("len", B.dop("u8", 8), 1, 4)
+    d = B.dop("plb", dct=B.param_length_type(k, DataType.A_BYTEFIELD), dt=DataType.A_BYTEFIELD)
+    return B.request([B.coded_const("sid", 0x22, 0), k, B.value_param("blob", d), B.coded_const("end", 0x55)]), \
+        [("blob", ("bytes", 0, 2))], None
+
+
+def d_dynamic_length_field_of_strings_last():
+    # a field at the very end of the PDU whose items end with a terminated object: only the last item is "at the end"
+    mm = B.dop("mmz", dct=B.minmax_type(DataType.A_BYTEFIELD, 0, 3, "ZERO"), dt=DataType.A_BYTEFIELD)
+    item = B.structure("item", [B.value_param("blob", mm)])
+    f = B.dynamic_length_field("items", item, B.dop("count", 8), offset=1)
+    return B.request([B.coded_const("sid", 0x22, 0), B.value_param("items", f)]), \
+        [("items", ("list", ("dict", [("blob", ("bytes", 1, 2))]), [1, 2]))], None
+
+
+def d_linear_with_default_value():
+    # values outside the limits of the compu method decode to the COMPU-DEFAULT-VALUE
+    d = B.dop("limd", dct=B.std_type(8), compu_method=B.linear(10, 2, DataType.A_UINT32, DataType.A_UINT32, 0, 100,
+                                                                default="9999"))
+    return B.request([B.coded_const("sid", 0x2E, 0), B.value_param("x", d, 1)]), [("x", ("affine", 2, 10))], None
+
+
 def d_linear_limited():
     d = B.dop("lim", dct=B.std_type(8), compu_method=B.linear(0, 1, DataType.A_UINT32, DataType.A_UINT32, 0, 100))
     return B.request([B.coded_const("sid", 0x2E, 0), B.value_param("pct", d, 1)]), [("pct", ("dependent", 8))], None
@@ -346,12 +379,17 @@ DESCRIPTIONS = {
     "multiplexer-open-limits": d_multiplexer_open_limits,
     "linear-float-precision": d_linear_float_with_display_precision,
     "bytes-const+bytes-last": d_bytes_const_and_bytes_last,
+    "leading-length-text-latin1": d_leading_length_text_latin1,
+    "length-key-bit-position": d_length_key_bit_position,
+    "dynamic-length-field-of-strings-last": d_dynamic_length_field_of_strings_last,
+    "linear-with-default-value": d_linear_with_default_value,
 }
 
 # descriptions in which every bit of the PDU is determined by the decoded values: no reserved bits, no padding behind
 # BYTE-SIZE / ITEM-BYTE-SIZE, no bits between objects (length keys that are no multiple of 8), no key ranges (the
 # multiplexer re-encodes the lower limit of the case); strings are left out because the abstract codec (A-codec) makes
 # the comparison undecidable for the solvers, linear-int16 because the 16 bit two's complement comparison stays unknown
+DECODE_SKIP = {"dynamic-length-field-of-strings-last"}
 BYTES_DETERMINED = {"sid+u8", "lowhigh-12+4", "default", "phys-const", "linear-limited-u8",
                     "minmax-zero+u8", "minmax-end-of-pdu", "minmax-hexff+const", "struct-param", "end-of-pdu-field",
                     "leading-length-bytes", "leading-length-le16", "leading-length-last", "dynamic-length-field",
@@ -453,6 +491,12 @@ def _wire(desc, values, pdu):
         return bytes([0x22, len(v["blob"])]) + bytes(v["blob"]) + bytes([v["tail"]])
     if desc == "leading-length-le16":
         return bytes([0x22, len(v["blob"]), 0]) + bytes(v["blob"]) + bytes([v["tail"]])
+    if desc == "leading-length-text-latin1":
+        return bytes([0x22, len(v["text"])]) + v["text"].encode("iso-8859-1") + bytes([0x55])
+    if desc == "length-key-bit-position":
+        n = 8 * len(v["blob"])
+        # the two bytes read as one big-endian number hold the key shifted left by its bit position
+        return bytes([0x22, n // 16, (n % 16) * 16]) + bytes(v["blob"]) + bytes([0x55])
     if desc == "leading-length-last":
         return bytes([0x29, len(v["blob"])]) + bytes(v["blob"])
     if desc == "length-key-bytes" and "len" not in v:
@@ -566,7 +610,7 @@ def roundtrip_through_the_real_stack(desc):
             got = back[name]
             if desc == "dtc":
                 got = got.trouble_code  # DTCs decode to the DTC object carrying the trouble code
-            H.check("C01,C04:decoded-value-is-the-encoded-value", _same(got, values[name]), independent=True)
+            H.check("C01,C02,C04:decoded-value-is-the-encoded-value", _same(got, values[name]), independent=True)
     for p in codec.parameters:
         if isinstance(p, CodedConstParameter):
             H.check("C01:constants-decode-to-their-value", back[p.short_name] == p.coded_value)
@@ -627,8 +671,9 @@ def constant_prefix_is_a_prefix_of_every_message(desc):
                 H.And(len(pdu) >= len(part), H.eq(bytes(pdu)[:len(part)], bytes(part))))
 
 
-@harness(props=["C05"], strength="B", family=_fam,
-         bound="the same concrete descriptions; the message is a symbolic byte string of 0..8 bytes (0..14 for the length-key descriptions, so that keys beyond 64 bits are reachable)",
+@harness(props=["C05"], strength="B", family=lambda t, s: [m for m in _fam(t, s) if m["desc"] not in DECODE_SKIP],
+         bound="the same concrete descriptions (but the field of terminated strings, whose symbolic item count needs a "
+         "loop invariant that is not written); the message is a symbolic byte string of 0..8 bytes (0..14 for the length-key descriptions, so that keys beyond 64 bits are reachable)",
          functions=FUNCTIONS, covers=["decoded", "rejected"], assumes=["A-bitstruct", "A-lib"],
          limits={"max_paths": 40000, "task_timeout": 1500, "sym_for_unroll": 12}, use_contracts=["bcd"])
 def decoding_arbitrary_bytes_is_total(desc):
